@@ -131,6 +131,13 @@ def parse_json(
                 elif isinstance(element, dict):
                     inner_struct = parse_json(element, error_handler, struct_context)
                     array.append_value(inner_struct)
+                elif isinstance(element, list):
+                    # an array as element of an array cannot be typed: report it, do not drop it
+                    error_handler.print_error(
+                        f"The array '{identifier}' contains an array as element, "
+                        "arrays of arrays are not supported",
+                        context=struct_context,
+                    )
         elif isinstance(value, dict):
             inner_struct = parse_json(value, error_handler, struct_context)
             struct.attributes[identifier] = inner_struct
